@@ -404,12 +404,29 @@ pub fn gen_schema(rng: &mut Rng, opts: &SchemaOpts) -> SchemaModel {
     }
     // definition order is shuffled (order inside the model = order inside files)
     rng.shuffle(&mut m.types);
-    // no schema file may be empty (an empty document is a parse error)
+    // no schema file may be empty (an empty document is a parse error): move a definition
+    // out of a file that holds at least two
     for i in 0..n_files {
-        if !m.types.iter().any(|t| t.file == i) {
-            let k = m.types.len();
-            m.types[i % k].file = i;
+        if m.types.iter().any(|t| t.file == i) {
+            continue;
         }
+        let donor = (0..n_files).find(|j| m.types.iter().filter(|t| t.file == *j).count() >= 2);
+        if let Some(j) = donor {
+            let k = m.types.iter().position(|t| t.file == j).unwrap();
+            m.types[k].file = i;
+        }
+    }
+    let used: Vec<usize> = (0..n_files).filter(|i| m.types.iter().any(|t| t.file == *i)).collect();
+    if used.len() < n_files {
+        // fewer definitions than files: renumber and shrink
+        for t in m.types.iter_mut() {
+            t.file = used.iter().position(|u| *u == t.file).unwrap();
+            t.ext_file %= used.len();
+        }
+        for d in m.directives.iter_mut() {
+            d.file %= used.len();
+        }
+        m.n_files = used.len();
     }
     m
 }
